@@ -265,3 +265,92 @@ Proof.
 Qed.
 
 End TracerSound.
+
+(* ---- tracer: upper bound  Lss <= bare coefficient ---------------------------------------------------------- *)
+Section TracerUpper.
+Variable K : ordring.
+Notation "0" := (r0 K).
+Infix "+" := (radd K). Infix "*" := (rmul K). Infix "-" := (rsub K). Notation "- x" := (ropp K x).
+Infix "<=" := (rle K).
+Add Ring Kr8 : (r_ring K).
+
+(* q maps a pair state to the site of the SOLUTE, p to the site of the vacancy.  On swing edges the solute stays; on an
+   exchange edge solute and vacancy swap sites and the solute displacement is minus the (base-network) displacement.
+   Test field for Thomson's principle: eta = gY o q, with gY ANY field on the base network (e.g. its corrector). *)
+Theorem tracer_Lss_upper (Nsw Nex NY : net K) p q view (dS dY : edge K -> K) gS gY :
+  nonneg (Nsw ++ Nex) ->
+  (forall e, In e Nsw -> dS e = 0 /\ q (src e) = q (dst e)) ->
+  (forall e, In e Nex -> dS e = - dY (proj p view e) /\ q (src e) = p (dst e) /\ q (dst e) = p (src e)) ->
+  Permutation (map (proj p view) Nex) NY ->
+  weakKCL (Nsw ++ Nex) dS gS ->
+  Bform (Nsw ++ Nex) dS dS gS gS <= Bform NY dY dY gY gY.
+Proof.
+  intros Hnn Hsw Hex Hperm HS.
+  apply rle_trans with (Bform (Nsw ++ Nex) dS dS (fun x => gY (q x)) (fun x => gY (q x))).
+  - apply thomson; assumption.
+  - assert (E : Bform (Nsw ++ Nex) dS dS (fun x => gY (q x)) (fun x => gY (q x)) = Bform NY dY dY gY gY).
+    { unfold Bform. rewrite sumf_app.
+      assert (E1 : sumf (fun e => flux dS (fun x => gY (q x)) e * (dS e + grad (fun x => gY (q x)) e)) Nsw = 0).
+      { transitivity (sumf (fun _ : edge K => 0) Nsw); [|apply sumf_zero].
+        apply sumf_ext. intros e He. destruct (Hsw e He) as [H1 H2]. unfold flux, grad. rewrite H1, H2. ring. }
+      rewrite E1. rewrite <- (sumf_perm K _ _ _ Hperm). rewrite sumf_map.
+      transitivity (sumf (fun e => flux dS (fun x => gY (q x)) e * (dS e + grad (fun x => gY (q x)) e)) Nex); [ring|].
+      apply sumf_ext. intros e He. destruct (Hex e He) as [H1 [H2 H3]].
+      unfold flux, grad. rewrite H1, H2, H3. unfold proj; cbn [src dst cond]. ring. }
+    rewrite E. apply rle_refl.
+Qed.
+
+End TracerUpper.
+
+Section TracerUpperSound.
+Variable K : ordring.
+Add Ring Kr9 : (r_ring K).
+
+Lemma lin_comp_proj dim coef p (e : edge K) :
+  lin dim coef (@comp K) (proj p (skipn dim (A:=K)) e) = sumf (fun k => rmul K (nth k coef (r0 K)) (comp (dim + k) e)) (seq 0 dim).
+Proof.
+  unfold lin. apply sumf_ext. intros k _. rewrite (related_skip K p dim k e). reflexivity.
+Qed.
+
+(* Soundness of the structure checks for the upper bound: for EVERY direction n (coefficient list), with n.(solute
+   displacement), its corrector gS, and ANY field gY on the bare network (in particular the corrector of n.d):
+   n.Lss.n <= n.L(bare).n  *)
+Theorem tracer_upper_sound dim nX nY kfib (Nsw Nex NY : net K) (p q : list nat) gam coef gS gY :
+  tracer_check dim nX nY kfib Nsw Nex NY p gam = true ->
+  qstructb Nsw Nex p q = true ->
+  nonnegb (Nsw ++ Nex) = true ->
+  weakKCL (Nsw ++ Nex) (lin dim coef (@comp K)) gS ->
+  rle K (Bform (Nsw ++ Nex) (lin dim coef (@comp K)) (lin dim coef (@comp K)) gS gS)
+        (Bform NY (lin dim coef (@comp K)) (lin dim coef (@comp K)) gY gY).
+Proof.
+  intros HT HQ HN HS.
+  unfold tracer_check in HT. cbv zeta in HT.
+  repeat (apply andb_true_iff in HT; destruct HT as [HT ?]).
+  match goal with
+  | H7 : permb _ NY = true, H8 : forallb (ds_zero dim) Nsw = true, H9 : forallb (ds_minus_dv dim) Nex = true |- _ =>
+      rename H7 into PE; rename H8 into SZ; rename H9 into SM
+  end.
+  unfold qstructb in HQ. apply andb_true_iff in HQ. destruct HQ as [Q1 Q2].
+  apply (tracer_Lss_upper K Nsw Nex NY (permfun p) (permfun q) (skipn dim (A:=K))).
+  - apply nonnegb_sound. exact HN.
+  - intros e He. split.
+    + rewrite forallb_forall in SZ. specialize (SZ e He). unfold ds_zero in SZ.
+      unfold lin. transitivity (sumf (fun _ : nat => r0 K) (seq 0 dim)); [|apply sumf_zero].
+      apply sumf_ext. intros k Hk. apply in_seq in Hk.
+      assert (E : comp k e = r0 K) by (apply (reqb_spec K); apply (forallb_seq_lt _ dim SZ k); lia).
+      rewrite E. ring.
+    + rewrite forallb_forall in Q1. apply Nat.eqb_eq. apply (Q1 e He).
+  - intros e He. split; [|split].
+    + rewrite forallb_forall in SM. specialize (SM e He). unfold ds_minus_dv in SM.
+      rewrite lin_comp_proj. unfold lin.
+      transitivity (sumf (fun k => rmul K (ropp K (r1 K)) (rmul K (nth k coef (r0 K)) (comp (dim + k) e))) (seq 0 dim)).
+      * apply sumf_ext. intros k Hk. apply in_seq in Hk.
+        assert (E : comp k e = ropp K (comp (dim + k) e)) by (apply (reqb_spec K); apply (forallb_seq_lt _ dim SM k); lia).
+        rewrite E. ring.
+      * rewrite sumf_scal. ring.
+    + rewrite forallb_forall in Q2. specialize (Q2 e He). apply andb_true_iff in Q2. apply Nat.eqb_eq. apply Q2.
+    + rewrite forallb_forall in Q2. specialize (Q2 e He). apply andb_true_iff in Q2. apply Nat.eqb_eq. apply Q2.
+  - apply permb_sound. exact PE.
+  - exact HS.
+Qed.
+End TracerUpperSound.
